@@ -853,7 +853,7 @@ func c02Plugin(c *Ctx, F *ssa.Function, getCall *ssa.Call) {
 			sentinels := errorGlobalsReturnedBy(w, staticCallee(mv))
 			isSent := func(l, d string) bool {
 				for _, sg := range sentinels {
-					if l == "EQ("+d+","+sg+")" {
+					if l == "EQ("+d+","+sg+")" || l == "T(call:errors.Is("+d+","+sg+"))" {
 						return true
 					}
 				}
@@ -1154,7 +1154,7 @@ func c02Routing(c *Ctx, F *ssa.Function, getCall *ssa.Call) {
 			if want {
 				pre = "T("
 			}
-			return strings.HasPrefix(l, pre+"call:ngo/internal/slices.Contains(") && strings.HasSuffix(l, fmt.Sprintf(",const:%q))", capConst))
+			return strings.HasPrefix(l, pre+"call:slices.Contains(") && strings.HasSuffix(l, fmt.Sprintf(",const:%q))", capConst))
 		}
 	}
 	// identity
@@ -1164,7 +1164,7 @@ func c02Routing(c *Ctx, F *ssa.Function, getCall *ssa.Call) {
 			c.Unk("routing/identity", rule, w.FnPos(F), "native identity check call not recognised")
 		} else {
 			g := fi.GuardsOf(idCall)
-			_, guarded := hasLabel(g, "F(call:ngo/internal/slices.Contains(", fmt.Sprintf(",const:%q))", ti))
+			_, guarded := hasLabel(g, "F(call:slices.Contains(", fmt.Sprintf(",const:%q))", ti))
 			// completeness: cutting {plugin owns identity} and the edges into the native check disconnects success
 			cut := fi.edgesMatching(containsEdge(ti, true))
 			cutInto(fi, idCall.Block(), cut)
@@ -1200,7 +1200,7 @@ func c02Routing(c *Ctx, F *ssa.Function, getCall *ssa.Call) {
 		} else {
 			g := fi.GuardsOf(revCall)
 			_, g1 := hasLabel(g, "NE(", skipRev)
-			_, g2 := hasLabel(g, "F(call:ngo/internal/slices.Contains(", fmt.Sprintf(",const:%q))", rv))
+			_, g2 := hasLabel(g, "F(call:slices.Contains(", fmt.Sprintf(",const:%q))", rv))
 			cut := fi.edgesMatching(containsEdge(rv, true))
 			for e := range fi.edgesMatching(func(l string, _ *ssa.If, _ bool) bool {
 				return strings.HasPrefix(l, "EQ(") && strings.HasSuffix(l, skipRev)
@@ -1221,7 +1221,7 @@ func c02Routing(c *Ctx, F *ssa.Function, getCall *ssa.Call) {
 		if !ok {
 			continue
 		}
-		if strings.HasPrefix(calleeName(call), "ngo/internal/slices.Contains") && len(call.Call.Args) == 2 {
+		if calleeName(call) == "slices.Contains" && len(call.Call.Args) == 2 {
 			if k, ok := call.Call.Args[1].(*ssa.Const); ok && constString(k) == fmt.Sprintf("%q", ti) {
 				capsDeclared = call.Call.Args[0]
 			}
@@ -1575,9 +1575,9 @@ func c02Enumerator(c *Ctx, F *ssa.Function) {
 				continue
 			}
 			isHeaderEdge := func(l string, _ *ssa.If, _ bool) bool {
-				if strings.HasPrefix(l, "T(call:ngo/internal/slices.Contains(") {
+				if strings.HasPrefix(l, "T(call:slices.Contains(") {
 					for g := range headerLists {
-						if strings.HasPrefix(l, "T(call:ngo/internal/slices.Contains("+g+",") && strings.Contains(l, xd+"[") {
+						if strings.HasPrefix(l, "T(call:slices.Contains("+g+",") && strings.Contains(l, xd+"[") {
 							return true
 						}
 					}
